@@ -61,7 +61,7 @@ def refreshShare (S : Suite F E) (rs : SecretShare F E) (kp : KeyPackage F E) :
     if refreshed.minSigners ≠ kp.minSigners then .error .InvalidMinSigners
     else
       let share := refreshed.share + kp.share
-      .ok { kp with share := share }
+      .ok { kp with share := share, vshare := share • S.G }
   | .error e => .error e
   | .panic s => .panic s
 
